@@ -124,6 +124,25 @@ static std::string unknownName(const std::string& orig, bool sameLen, int k) {
 	return "VerifUnknownBlockType_" + std::to_string(k) + "_" + orig;
 }
 
+// replaces the stored type names selected by `sel` with names no factory knows
+std::string relabelTypes(const std::string& F, const nifparse::Parsed& p0, const std::set<size_t>& sel, bool sameLen) {
+	std::string Fp = F;
+	std::vector<size_t> order(sel.begin(), sel.end());
+	std::sort(order.rbegin(), order.rend()); // splice from the back so earlier offsets stay valid
+	int k = 0;
+	auto& reg = allBlockTypes();
+	for (auto ti : order) {
+		std::string nn = unknownName(p0.types[ti], sameLen, k++);
+		while (std::find(reg.begin(), reg.end(), nn) != reg.end()) nn += "_";
+		size_t off = p0.typeNameOff[ti];
+		uint32_t len = uint32_t(nn.size());
+		std::string rep(reinterpret_cast<char*>(&len), 4);
+		rep += nn;
+		Fp.replace(off, 4 + p0.types[ti].size(), rep);
+	}
+	return Fp;
+}
+
 void profile_unknown(const json& plan, Ctx& ctx) {
 	NifFile tmp;
 	std::string F;
@@ -139,22 +158,7 @@ void profile_unknown(const json& plan, Ctx& ctx) {
 	if (jbool(plan, "all", false)) for (size_t i = 0; i < nt; i++) sel.insert(i);
 	else for (auto& v : plan["relabel"]) sel.insert(size_t(v.get<uint64_t>() % nt));
 	bool sameLen = jbool(plan, "same_len", true);
-	std::string Fp = F;
-	std::vector<size_t> order(sel.begin(), sel.end());
-	std::sort(order.rbegin(), order.rend()); // splice from the back so earlier offsets stay valid
-	std::map<size_t, std::string> newNames;
-	int k = 0;
-	auto& reg = allBlockTypes();
-	for (auto ti : order) {
-		std::string nn = unknownName(p0.types[ti], sameLen, k++);
-		while (std::find(reg.begin(), reg.end(), nn) != reg.end()) nn += "_";
-		newNames[ti] = nn;
-		size_t off = p0.typeNameOff[ti];
-		uint32_t len = uint32_t(nn.size());
-		std::string rep(reinterpret_cast<char*>(&len), 4);
-		rep += nn;
-		Fp.replace(off, 4 + p0.types[ti].size(), rep);
-	}
+	std::string Fp = relabelTypes(F, p0, sel, sameLen);
 	ctx.fault("F-SKEW", (long) sel.size());
 	ctx.sig.tag("relabel"); for (auto ti : sel) ctx.sig.i((long long) ti); ctx.sig.i(sameLen);
 	auto p1 = nifparse::parse(Fp);
@@ -167,6 +171,18 @@ void profile_unknown(const json& plan, Ctx& ctx) {
 	ctx.probe("unknown_blocks_present");
 	if (sel.count(p0.typeIdx[0])) ctx.probe("root_relabelled");
 	if (jbool(plan, "queries", false)) { setStage("queries"); ctx.hist.u64(batteryDigest(*nif, ctx, 1)); }
+	std::string via = jstr(plan, "via", "");
+	if (via == "copy" || via == "assign") {
+		// the model travels through a copy before it is saved (the unknown blocks must survive that too)
+		setStage("copy");
+		auto cp = std::make_unique<NifFile>();
+		if (via == "copy") cp = std::make_unique<NifFile>(*nif);
+		else *cp = *nif;
+		if (jbool(plan, "destroy_original", true)) nif.reset();
+		nif = std::move(cp);
+		ctx.probe("saved_through_a_copy");
+		ctx.sig.str(via);
+	}
 	bool raw = jbool(plan, "raw", true);
 	setStage("save");
 	SaveSpec sp;
